@@ -116,8 +116,8 @@ class Auth(object):
             raise ValueError("invalid password hash")
         kind = parts[0]
         version = parts[1]
-        params = base64.b64decode(parts[2])
-        data = base64.b64decode(parts[3])
+        params = base64.b64decode(parts[2], validate=True)
+        data = base64.b64decode(parts[3], validate=True)
 
         if kind != b'scrypt' or version != b"1":
             raise ValueError("invalid method")
